@@ -229,6 +229,20 @@ func c02Tamperings() []tampering {
 			s.Spec.RequestDelta = map[string]interface{}{"updateCommitment": s.Spec.UpdateCommitment, "patches": mk(y)}
 			s.Facts.DeltaBound = false
 		}},
+		{"delta-string-or-sign-changed", "ur", func(h *histCtx, s *opStep) {
+			// the delta sent differs from the signed one in one character of a string (an astral character replaced by the BMP
+			// character its low 16 bits denote, an escaped character changed) or in the sign of a number
+			pairs := [][2]interface{}{{"q\"uote \U0001F600 end", "q\"uote \uf600 end"}, {"line\nbreak \U00010000", "line\nbreak \u0000"}, {"a<b>\U0001F601", "a<b>\uf601"},
+				{-2.5e-7, 2.5e-7}, {-1e21, 1e21}, {-1500000000000.0, -1600000000000.0}, {-1500000000000.0, 1500000000000.0}, {"caf\u00e9", "cafe\u0301"}, {"\u2028", "("}, {"A", "a"}}
+			pr := pairs[h.r.Intn(len(pairs))]
+			mk := func(v interface{}) []interface{} {
+				return append(append([]interface{}{}, s.Spec.Patches...), gen.PJSON(map[string]interface{}{"op": "add", "path": "/serial", "value": v}))
+			}
+			s.Spec.Patches = mk(pr[0])
+			s.Facts.Patches = s.Spec.Patches
+			s.Spec.RequestDelta = map[string]interface{}{"updateCommitment": s.Spec.UpdateCommitment, "patches": mk(pr[1])}
+			s.Facts.DeltaBound = false
+		}},
 		{"delta-member-reordered-only", "ur", func(h *histCtx, s *opStep) {
 			// same delta value (the request is canonicalized anyway): must stay ACCEPTED
 			s.Spec.RequestDelta = map[string]interface{}{"patches": s.Spec.Patches, "updateCommitment": s.Spec.UpdateCommitment}
